@@ -642,6 +642,17 @@ pub fn fam_vecs(body: Body) -> Vec<Program> {
 				out.push(Program { specs: vec![Spec::Native(Native::VecsFromRef), Spec::Native(Native::VecsRefs(k1))], threads: vec![vec![acq(0, w0, Flavour::Guard, body)], vec![acq(1, w1, Flavour::Guard, body)]], policy, name: "V".into(), menu: vec![] });
 			}
 		}
+		// a Boxed collection that owns the data (new / From / try_new) against checked collections of references into it
+		for via in 0..3u8 {
+			for k1 in KINDS {
+				for (w0, w1) in [(true, true), (true, false), (false, true)] {
+					if policy == Policy::WP && w0 && w1 {
+						continue;
+					}
+					out.push(Program { specs: vec![Spec::Native(Native::VecsOwnedBoxed(via)), Spec::Native(Native::VecsRefs(k1))], threads: vec![vec![acq(0, w0, Flavour::Guard, body)], vec![acq(1, w1, Flavour::Guard, body)]], policy, name: "V".into(), menu: vec![] });
+				}
+			}
+		}
 		// two unchecked collections over the same data
 		for k0 in KINDS {
 			for k1 in KINDS {
@@ -822,6 +833,10 @@ pub fn fam_readers(thorough: bool) -> Vec<Program> {
 							continue;
 						}
 						out.push(Program { specs: vec![s.clone()], threads: vec![vec![acq(0, false, *f0, inside)], vec![acq(0, false, *f1, quick)], vec![acq(0, true, fw, quick)]], policy, name: "S".into(), menu: vec![] });
+						// the second reader's section panics: its unwinding release must take only its own shared hold
+						if !matches!(f1, Flavour::Try | Flavour::GuardUnlock) && (thorough || fw == Flavour::Guard) {
+							out.push(Program { specs: vec![s.clone()], threads: vec![vec![acq(0, false, *f0, inside)], vec![acq(0, false, *f1, Body { touch: true, yield_mid: false, panic: true, clear: false, rekey: false })], vec![acq(0, true, fw, quick)]], policy, name: "S".into(), menu: vec![] });
+						}
 					}
 				}
 			}
@@ -857,6 +872,35 @@ pub fn fam_debug(thorough: bool) -> Vec<Program> {
 			}
 			for f0 in [Flavour::Guard, Flavour::ScopedLent] {
 				out.push(Program { specs: specs.clone(), threads: vec![vec![acq(0, w0, f0, inside)], vec![Step::Debug(1), acq(1, true, Flavour::Try, Body::TOUCH)]], policy: Policy::RP, name: "G".into(), menu: vec![] });
+			}
+		}
+	}
+	out
+}
+
+/// Family G2: while one thread formats (Debug) a lock, a collection or a Poisonable - free, or read-held by a third
+/// thread - another thread kills one of its locks through the safe `RawLock::poison`. Formatting takes a transient
+/// hold; whatever happens to the lock meanwhile, the formatter must leave without it.
+pub fn fam_debug_kill(thorough: bool) -> Vec<Program> {
+	let mut out = vec![];
+	// (lock that is killed, what is formatted)
+	let mut sets: Vec<Vec<Spec>> = vec![vec![Spec::R(0), Spec::R(0)], vec![Spec::M(0), Spec::M(0)], vec![Spec::PR(0), Spec::PR(0)], vec![Spec::R(0), Spec::OW(0)]];
+	for k in KINDS {
+		sets.push(vec![Spec::R(0), Spec::Coll(k, vec![Spec::R(1), Spec::R(0)])]);
+		if thorough {
+			sets.push(vec![Spec::M(0), Spec::Coll(k, vec![Spec::R(0), Spec::M(0)])]);
+			sets.push(vec![Spec::R(0), Spec::Pois(Box::new(Spec::Coll(k, vec![Spec::R(1), Spec::R(0)])))]);
+		}
+	}
+	sets.push(vec![Spec::OW(0), Spec::OW(0)]);
+	let inside = Body { touch: true, yield_mid: true, panic: false, clear: false, rekey: false };
+	for specs in sets {
+		// formatter and killer alone
+		out.push(Program { specs: specs.clone(), threads: vec![vec![Step::Debug(1), Step::Debug(1)], vec![Step::Kill(0)]], policy: Policy::RP, name: "G2".into(), menu: vec![] });
+		// ... and with a reader inside (its guard is released after the kill)
+		if specs[0].sharable() {
+			for f in [Flavour::Guard, Flavour::ScopedLent] {
+				out.push(Program { specs: specs.clone(), threads: vec![vec![Step::Debug(1)], vec![Step::Kill(0)], vec![acq(0, false, f, inside)]], policy: Policy::RP, name: "G2".into(), menu: vec![] });
 			}
 		}
 	}
